@@ -2,11 +2,13 @@
 # overlay venv on top of /venv (repo deps) with CrossHair from the offline wheelhouse
 set -e
 cd "$(dirname "$0")"
+REPO="${VF_REPO:-/repo}"
+if [ -x .venv/bin/python ] && ! grep -qx "$REPO" .venv/lib/python3.12/site-packages/_overlay.pth 2>/dev/null; then rm -rf .venv; fi
 if [ ! -x .venv/bin/python ] || ! .venv/bin/python -c "import crosshair, z3, apischema" 2>/dev/null; then
   rm -rf .venv
   /venv/bin/python -m venv .venv
   SP=$(.venv/bin/python -c "import site;print(site.getsitepackages()[0])")
-  printf "/venv/lib/python3.12/site-packages\n/repo\n" > "$SP/_overlay.pth"
+  printf "/venv/lib/python3.12/site-packages\n%s\n" "$REPO" > "$SP/_overlay.pth"
   PIP_NO_INDEX=1 .venv/bin/pip install -q --no-index --no-deps --find-links /opt/veriftools/wheels \
     crosshair-tool z3-solver typing_inspect mypy_extensions typeshed_client importlib_metadata zipp
 fi
